@@ -63,6 +63,7 @@ theorem version_reported (o e : Nat × Nat × Nat) (h : o.1 ≠ e.1 ∨ o.2.1 > 
     HapVersion.check o e = .unsupported := by
   unfold HapVersion.check; simp [h]
 
+/-- files of the same major version and an older or equal minor version are never reported as unsupported -/
 theorem version_accepted (o e : Nat × Nat × Nat) (h1 : o.1 = e.1) (h2 : o.2.1 ≤ e.2.1) :
     HapVersion.check o e ≠ .unsupported := by
   unfold HapVersion.check
